@@ -683,7 +683,10 @@ func (d *Dials[T]) monitor(
 					})
 				}
 			case *watchErrorReport:
-				if !skipVerify && !d.params.CallGlobalCallbacksAfterVerificationEnabled {
+				// Errors reported by sources are only withheld while
+				// verification is still delayed and the global
+				// callbacks are suppressed until it is enabled.
+				if !(skipVerify && d.params.CallGlobalCallbacksAfterVerificationEnabled) {
 					verifPoint("mon.submit-srcerr")
 					d.submitEvent(ctx, &watchErrorEvent[T]{
 						err: fmt.Errorf("error reported by source of type %T: %w",
